@@ -130,6 +130,7 @@ MUTANTS = {
         ("reader-errors-replace", "tatsu/packetz/queue.py", 'with self.path.open("rb", buffering=1024 * 256) as q:', 'with self.path.open("rt", encoding="utf-8", errors="replace", newline="\\n", buffering=1024 * 256) as q:', "caught"),
         ("revert-tty-fix", "tatsu/packetz/packet.py", "        return '\\\\u001b' if m.group(1) == 'e' else m.group(0)\n\n    return JSON_ESCAPE_RE.sub(unescape, s)", "        return m.group(0)\n\n    return s.replace('\\\\e', '\\x1b')", "caught"),
         ("revert-at-key-fix", "tatsu/packetz/packet.py", "    s = AT_KEY_RE.sub(r'\"@\\1\":', s)\n", "", "caught"),
+        ("revert-surrogate-fix", "tatsu/packetz/packet.py", "    value = LONE_SURROGATE_RE.sub(lambda m: f'\\\\u{ord(m.group()):04x}', value)\n", "", "caught"),
         ("async-no-sleep", "tatsu/packetz/queue.py", "                await asyncio.sleep(0.01)\n", "                pass\n", "caught"),
         ("told-past-partial-on-eof", "tatsu/packetz/queue.py", """                if not raw.endswith(b"\\n"):
                     break
